@@ -125,8 +125,12 @@ func fixedCases() []Case {
 		pngOp(7),
 		{K: "title", S: []string{"T"}},
 	}
+	// header1.xml is the even-page header of the package: setting the default header must not touch it
+	evenHdr := rich
+	evenHdr.Sect = &foreign.Sect{W: 11906, H: 16838, Margin: 1440, HeaderRefs: []foreign.HRef{{Type: "even", RelID: "rId7"}}}
 	return []Case{
 		{Pkg: rich},
 		{Pkg: rich, OpenFile: true, SaveFile: true, Ops: edits},
+		{Pkg: evenHdr, Ops: []ops.Op{{K: "header", I: []int{0}, S: []string{"new default header"}}, {K: "footer", I: []int{1}, S: []string{"first-page footer"}}}},
 	}
 }
